@@ -319,3 +319,76 @@ Proof.
   - unfold table_freqs, frequency_table. cbn [map snd In]. tauto.
   - cbn [e_rate]. discriminate.
 Qed.
+
+(* ---------- the slice-reader decoders (DecodeBoxSR path) ---------- *)
+Lemma decode_box_header_sr_ok size name rest p :
+  8 <= size -> size < 4294967296 -> lenN name = 4 ->
+  decode_box_header_sr (be32 size ++ name ++ rest, p) = EOk (name, size, (rest, p + 4 + 4)).
+Proof.
+  intros H8 H32 Hname. unfold decode_box_header_sr.
+  rewrite r_u32_be32 by exact H32. estep. rewrite r_take_app by exact Hname. estep.
+  replace (size =? 1) with false by (symmetry; apply N.eqb_neq; lia).
+  replace (size =? 0) with false by (symmetry; apply N.eqb_neq; lia).
+  replace (size <? 8) with false by (symmetry; apply N.ltb_ge; lia).
+  reflexivity.
+Qed.
+
+Lemma entry_roundtrip_sr cc ss rate dc :
+  cc < 65536 -> ss < 65536 -> rate < 65536 -> lenN dc <= 100 ->
+  decode_entry_sr (mp4a_box cc ss rate dc) = EOk (mkEntry 1 cc ss rate dc).
+Proof.
+  intros Hc Hs Hr Hn. unfold decode_entry_sr, mp4a_box.
+  assert (Hes : es_size dc = 23 + lenN dc) by (unfold es_size, dcd_size; lia).
+  assert (Hq : esds_size dc = 37 + lenN dc) by (unfold esds_size; lia).
+  rewrite decode_box_header_sr_ok by (try reflexivity; unfold mp4a_size; lia).
+  estep. rewrite list_eqb_refl. cbn [negb fst].
+  replace (lenN (zeros 6 ++ be16 1 ++ zeros 8 ++ be16 cc ++ be16 ss ++ zeros 4 ++ be32 (rate * 65536) ++ esds_box dc)
+           + 8 <? mp4a_size dc) with false.
+  2:{ symmetry. apply N.ltb_ge. rewrite !lenN_app, !zeros_len, esds_box_len. unfold be16, be32, mp4a_size.
+      rewrite !lenN_cons, !lenN_nil. lia. }
+  rewrite r_take_app by apply zeros_len. estep.
+  rewrite r_u16_be16 by lia. estep.
+  rewrite r_take_app by apply zeros_len. estep.
+  rewrite r_u16_be16 by exact Hc. estep.
+  rewrite r_u16_be16 by exact Hs. estep.
+  rewrite r_take_app by apply zeros_len. estep.
+  rewrite r_u32_be32 by lia. estep.
+  replace (mp4a_size dc <=? 36) with false by (symmetry; apply N.leb_gt; unfold mp4a_size; lia).
+  unfold esds_box.
+  rewrite decode_box_header_sr_ok by (try reflexivity; lia).
+  estep. rewrite list_eqb_refl. cbn [negb fst].
+  replace (lenN (be32 0 ++ es_bytes dc) + 8 <? esds_size dc) with false.
+  2:{ symmetry. apply N.ltb_ge. rewrite lenN_app, es_bytes_len. unfold be32, esds_size.
+      rewrite !lenN_cons, !lenN_nil. lia. }
+  rewrite r_u32_be32 by lia. estep.
+  rewrite <- (app_nil_r (es_bytes dc)). rewrite decode_es_ok by exact Hn. estep.
+  replace (36 + (8 + 4 + (2 + es_size dc)) <? mp4a_size dc) with false
+    by (symmetry; apply N.ltb_ge; unfold mp4a_size, esds_size; lia).
+  f_equal. f_equal. rewrite N.div_mul by discriminate. reflexivity.
+Qed.
+
+Lemma sample_entry_sr ot f :
+  entry_freq_ok ot f = true ->
+  exists bs dc,
+    set_aac_descriptor ot f = Ok bs
+    /\ decode_entry_sr bs = EOk (mkEntry 1 (a_chan (set_aac_asc ot f)) 16 (uint16_of_int f) dc)
+    /\ entry_asc_sr bs = EOk (set_aac_asc ot f).
+Proof.
+  intros H. pose proof (set_aac_asc_canonical ot f H) as Hc.
+  pose proof (asc_roundtrip _ Hc) as Hrt.
+  unfold set_aac_descriptor. unfold encode_asc in *.
+  destruct ((a_ot (set_aac_asc ot f) =? AAClc) || (a_ot (set_aac_asc ot f) =? HEAACv1)
+            || (a_ot (set_aac_asc ot f) =? HEAACv2)) eqn:E; [|discriminate].
+  cbn [rbind] in *.
+  set (dc := pack (flush (asc_bits (set_aac_asc ot f)))) in *.
+  exists (mp4a_box (a_chan (set_aac_asc ot f)) 16 (uint16_of_int f) dc), dc.
+  assert (Hd : decode_entry_sr (mp4a_box (a_chan (set_aac_asc ot f)) 16 (uint16_of_int f) dc)
+               = EOk (mkEntry 1 (a_chan (set_aac_asc ot f)) 16 (uint16_of_int f) dc)).
+  { apply entry_roundtrip_sr.
+    - apply set_aac_chan_small.
+    - reflexivity.
+    - unfold uint16_of_int. lia.
+    - apply asc_bytes_short. }
+  split; [reflexivity|]. split; [exact Hd|].
+  unfold entry_asc_sr. rewrite Hd. cbn [ebind e_dc]. now rewrite Hrt.
+Qed.
